@@ -59,6 +59,7 @@ type params struct {
 	nChunks    int
 	prefill    int // chunks placed in the input channel before Start
 	inOrder    bool
+	syncMode   bool // Datadog-like connection: SendChunk is the whole exchange, ReadChunkAck returns "" at once, Close aborts nothing
 	ackWindow  int
 	maxAge     time.Duration
 	script     []string // driver events after start: "feed", "stop", "usr1"
@@ -150,7 +151,7 @@ func (c *fakeConn) SendChunk(chunk base.LogChunk, deadline time.Time) error {
 	e.taken[chunk.ID] = true
 	c.tried = append(c.tried, chunk.ID)
 	e.checkOrder(c, chunk.ID)
-	if c.closed {
+	if c.closed && !e.p.syncMode {
 		return closedErr("write")
 	}
 	ans := 0
@@ -163,8 +164,8 @@ func (c *fakeConn) SendChunk(chunk base.LogChunk, deadline time.Time) error {
 		return resetErr("write")
 	case 2:
 		e.note("conn%d send %s: blocks", c.k, chunk.ID)
-		vsched.WaitUntil("fake.send-block", deadline, func() bool { return c.closed || !vsched.VNow().Before(deadline) })
-		if c.closed {
+		vsched.WaitUntil("fake.send-block", deadline, func() bool { return (c.closed && !e.p.syncMode) || !vsched.VNow().Before(deadline) })
+		if c.closed && !e.p.syncMode {
 			return closedErr("write")
 		}
 		return timeoutErr("write")
@@ -194,6 +195,19 @@ func (c *fakeConn) SendPing(deadline time.Time) error {
 
 func (c *fakeConn) ReadChunkAck(deadline time.Time) (string, error) {
 	e := c.env
+	if e.p.syncMode {
+		// the acknowledgement was part of the synchronous exchange in SendChunk: "" designates the oldest chunk whose
+		// SendChunk returned nil on this connection and which has not been designated yet (possibly none)
+		if len(c.pending) > 0 {
+			id := c.pending[0]
+			c.pending = c.pending[1:]
+			c.acked = append(c.acked, id)
+			e.note("conn%d implicit ack %s", c.k, id)
+		} else {
+			e.note("conn%d implicit ack designates nothing (no completed exchange outstanding)", c.k)
+		}
+		return "", nil
+	}
 	expired := func() bool { return !vsched.VNow().Before(deadline) }
 	// nothing to acknowledge: a read blocks until the upstream has something to say, the connection is closed
 	// or the deadline passes
@@ -584,6 +598,22 @@ func scenarios(prop string) []*explore.Scenario {
 				l.liveness = true
 				l.horizon = 30 * time.Minute
 				add(l, q, t, 1)
+			}
+		}
+		if inOrder {
+			// Datadog-like synchronous connection
+			for _, n := range []int{1, 2} {
+				y := params{nChunks: n, prefill: n, inOrder: true, syncMode: true, ackWindow: 1, maxAge: age,
+					connectAlt: 2, sendAlt: 3, pingAlt: 1, ackAlt: 1, advances: 1}
+				y.name = fmt.Sprintf("stop/sync/w1/n%d", n)
+				y.script = []string{"stop"}
+				add(y, 2, 3, 2)
+				z := y
+				z.name = fmt.Sprintf("live/sync/w1/n%d", n)
+				z.script = nil
+				z.liveness = true
+				z.horizon = 30 * time.Minute
+				add(z, 2, 3, 1)
 			}
 		}
 		// late feeding, soft reconnects
